@@ -212,8 +212,8 @@ var reviewedExec = []struct{ prefix, why string }{
 	{"EXEC <global sharedCache.GoCmd> <local args...>", "go list for package facts"},
 	{"EXEC git --git-dir <param workingDir> apply --verbose", "applies the linker patches inside the shared temp dir"},
 	{"EXEC <call path/filepath.Join> build -overlay <call path/filepath.Join> -o <param outputLinkPath> cmd/link", "builds the patched linker into garble's cache"},
-	{"EXEC <*ssa.IndexAddr> <*ssa.Slice...>", "re-executes the wrapped tool with -V=full"},
-	{"EXEC <*ssa.Phi> <*ssa.Phi...>", "executes the wrapped tool (or the patched linker) with transformed arguments"},
+	{"EXEC <param args[i]> <param args[:]...>", "re-executes the wrapped tool with -V=full"},
+	{"EXEC <var executablePath> <var transformed...>", "executes the wrapped tool (or the patched linker) with transformed arguments"},
 	{"EXEC <call os.Getenv> <*ssa.BinOp>", "garble bug: opens the browser"},
 }
 
